@@ -596,6 +596,37 @@ func c16Check(in []byte, cfg renderCfg, key string) *h.Viol {
 		}
 		return nil
 	}
+	// both expressions at once: a block is shown iff -f alone shows it and -m alone shows it
+	if cfg.filter != "" && cfg.match != "" {
+		fOnly, mOnly := cfg, cfg
+		fOnly.match, mOnly.filter = "", ""
+		fo, _, fp := runProcess(in, fOnly)
+		mo, _, mp := runProcess(in, mOnly)
+		if fp != "" || mp != "" {
+			return nil
+		}
+		fb, _ := splitBlocks(fo)
+		mb, _ := splitBlocks(mo)
+		inM := map[string]int{}
+		for _, b := range mb {
+			inM[b.text()]++
+		}
+		var want []string
+		for _, b := range fb {
+			if inM[b.text()] > 0 {
+				inM[b.text()]--
+				want = append(want, b.text())
+			}
+		}
+		var got []string
+		for _, b := range blocks {
+			got = append(got, b.text())
+		}
+		if strings.Join(got, "\x00") != strings.Join(want, "\x00") {
+			return mk("filter-and-match-not-the-intersection", fmt.Sprintf("-f %q and -m %q together show %d blocks; %d blocks are shown by each of them alone", cfg.filter, cfg.match, len(got), len(want)))
+		}
+		return nil
+	}
 	// filter / match: compare with the unfiltered blocks
 	base := cfg
 	base.filter, base.match = "", ""
@@ -669,7 +700,7 @@ func TestVerifC16(t *testing.T) {
 	defer os.RemoveAll(env.root)
 	genv := &gen.Env{States: env.states}
 	bound := r.Pick(2, 3)
-	r.Set("rule", fmt.Sprintf("dumps = all choice vectors of the traceback-printer model with <=%d content deviations over a restricted alphabet (non-ASCII package and file names, dotted paths, elided stacks, creators, sleep, lock, nested arguments, 1..5 goroutines) + 4 race reports; each x path format {base, rel, full} x colour {off,on} x similarity {AnyPointer, AnyValue} (full product of the configuration) and x filter/match expressions drawn from the headers; rendered by the real process(); oracle from the library's own snapshot/aggregation: one block per admitted bucket in order, header fields, frame line fields in order, file and function columns equal over the whole output (rune columns), (...) marker iff elided, strip(colour)=plain, filter/match partition the unfiltered blocks. non-trivial = more than one block or a non-default configuration; distinct = (input, configuration)", bound))
+	r.Set("rule", fmt.Sprintf("dumps = all choice vectors of the traceback-printer model with <=%d content deviations over a restricted alphabet (non-ASCII package and file names, dotted paths, elided stacks, creators, sleep, lock, nested arguments, 1..5 goroutines) + 4 race reports; each x path format {base, rel, full} x colour {off,on} x similarity {AnyPointer, AnyValue} (full product of the configuration) and x filter/match expressions drawn from the headers; rendered by the real process(); oracle from the library's own snapshot/aggregation: one block per admitted bucket in order, header fields, frame line fields in order, file and function columns equal over the whole output (rune columns), (...) marker iff elided, strip(colour)=plain, filter/match partition the unfiltered blocks; -f and -m together show the intersection. non-trivial = more than one block or a non-default configuration; distinct = (input, configuration)", bound))
 	r.Set("assumptions", []string{"expected header and frame fields are computed from the public stack API on the same input and options; the check is about rendering, not parsing", "GOPATH points at a scratch layout so that relative paths exist"})
 	if rv := r.ReplayFile(); rv != nil {
 		t.Logf("replay %s: %s\ninput:\n%s", rv.Key, rv.Summary, rv.Input())
@@ -700,6 +731,16 @@ func TestVerifC16(t *testing.T) {
 							cfgs = append(cfgs, renderCfg{pf: pf, colour: colour, level: lv, rebase: true, filter: e})
 							if pf == styleBase {
 								cfgs = append(cfgs, renderCfg{pf: pf, colour: colour, level: lv, rebase: true, match: e})
+							}
+						}
+						// both flags at once, over the first expressions
+						if pf == styleBase {
+							for fi := 0; fi < len(exprs) && fi < 4; fi++ {
+								for mi := 0; mi < len(exprs) && mi < 4; mi++ {
+									if fi != mi {
+										cfgs = append(cfgs, renderCfg{pf: pf, colour: colour, level: lv, rebase: true, filter: exprs[fi], match: exprs[mi]})
+									}
+								}
 							}
 						}
 					}
